@@ -167,3 +167,30 @@ def gen_c12(tier, rng):
                 ops.append("fld %s default set %s %d" % (cname, f[0], v))
         cases.append(Case("c12w", ops, nontrivial=True, tags=(cname, "write"), meta={"cls": cname}))
     return cases
+
+
+def lean_bytes(b):
+    return "([" + ", ".join(str(x) for x in b) + "] : Bytes)"
+
+
+def selfcheck_fld(cases, model):
+    """a sample of `fld` results of the compiled driver, as kernel-checked equations about setField"""
+    ex = []
+    for c, m in zip(cases, model):
+        if len(ex) >= 14:
+            break
+        cname = c.meta.get("cls")
+        if cname is None or "chain" not in c.tags:
+            continue
+        fields = {f[0]: f for f in layout.CLASSES[cname][4]}
+        for o, l in list(zip(c.ops, m))[:1]:
+            w = o.split(" ")
+            if w[2] == "default" or len(w) > 3 + 3 * 4 or not l.startswith("raw="):
+                continue
+            term = lean_bytes(bytes.fromhex(w[2]))
+            for i in range(3, len(w), 3):
+                f = fields[w[i + 1]]
+                term = "(setField ⟨\"%s\", %d, %d, %d, %d, \"\"⟩ %s %s)" % (f[0], f[1], f[2], f[3], f[4], w[i + 2], term)
+            raw = bytes.fromhex(l.split(" ")[0][4:])
+            ex.append("example : %s = %s := by decide" % (term, lean_bytes(raw)))
+    return ["AsamCmp.Fields"], ex
